@@ -868,7 +868,7 @@ class C18(Property):
 
     def gen_universe(self, rng, cfg):
         ids = gen.IdAlloc(rng, 1, 400, zero=0.1)
-        net = gen.gen_network(rng, rows=rng.randint(1, 2), cols=rng.randint(1, 3), ids=ids, loops=0.3)
+        net = gen.gen_network(rng, rows=rng.randint(1, 2), cols=rng.randint(1, 3), ids=ids, loops=0.3, many_pts=0.15)
         net.pop("_geom", None)
         obstacles, features = [], set()
         for el in net["signs"] + net["lights"]:
@@ -895,7 +895,8 @@ class C18(Property):
             role = rng.weighted(["static", "dynamic", "dynamic_nopred", "dynamic_set", "env", "phantom"],
                                 [2, 6, 1, 1.5, 1, 1])
             kinds = ("rect", "circ", "poly", "group") if rng.chance(0.2) else ("rect", "circ", "poly")
-            ob = gen.gen_obstacle(rng, ids.take(), net, role=role, shape_kinds=kinds, interval_steps=0.3, shuffle_occ=0.4)
+            ob = gen.gen_obstacle(rng, ids.take(), net, role=role, shape_kinds=kinds, interval_steps=0.3, shuffle_occ=0.4,
+                                  long_horizon=0.15)
             if ob.get("shape", {}).get("t") == "group":
                 features.add("shape-group")
             if role in ("dynamic_set", "phantom"):
